@@ -240,7 +240,7 @@ func inputDefault(r *Rng, t *gTRef, s *sSet, depth int) string {
 	case "Int":
 		return Pick(r, []string{"0", "7", "-3", "2147483647"})
 	case "Float":
-		return Pick(r, []string{"1.5", "-0.25", "3", "1e3"})
+		return Pick(r, []string{"1.5", "-0.25", "3", "1e3", "0.30000000000000004", "1.0000000000000002", "1234567.8901234567", "-2.2250738585072014e-308", "1.7976931348623157e308", "5e-324"})
 	case "String":
 		return Pick(r, []string{`"s"`, `""`, `"two words"`, `"q\"uote"`, `"é"`, `"\u001b[31m"`, `"a\u001fb\u0010"`, `"t\tb"`})
 	case "Boolean":
